@@ -14,6 +14,7 @@
     whenever every node has a bin name (no panic site is reached). *)
 From ClapModel Require Import Base.Bytes Complete.AotTree Complete.TextTree Complete.BashModel Complete.AotProofs
   Complete.BashProofs Escape.EscapeModel.
+From Coq Require Import String.
 Open Scope N_scope.
 Open Scope list_scope.
 
@@ -66,6 +67,9 @@ Qed.
 
 Lemma infix_concat_map {A} (f : A -> bytes) (l : list A) a : In a l -> infix (f a) (List.concat (map f l)).
 Proof. intros H. apply infix_concat, in_map, H. Qed.
+
+Lemma infix_prefix a b y : infix (a ++ b) y -> infix a y.
+Proof. intros (p & q & ->). exists p, (b ++ q). now rewrite <- !app_assoc. Qed.
 
 (** a decision procedure, used for the refutation witnesses *)
 Fixpoint infixb (x y : bytes) : bool :=
@@ -265,4 +269,50 @@ Proof.
   induction l as [|a l IH]; intros H; [reflexivity|].
   rewrite map_opt_cons, (H a (or_introl eq_refl)), IH; [reflexivity|].
   intros x Hx. apply H. now right.
+Qed.
+
+(** the key of the block of a path: the bin name and the words, joined with [;] *)
+Definition path_key (bin : bytes) (ws : list bytes) : bytes := bin ++ join_with [59] ws.
+
+(** ---- a worked example shared by the two shells (non-vacuity of the coverage theorems) ---- *)
+Definition ex_arg : arg :=
+  mkArg (lit "o") (Some (lit "s")) (Some (lit "long")) [(lit "t", true); (lit "u", false)] [(lit "lg", true)]
+        ASet None None None false false false.
+Definition ex_tree : cmd :=
+  mkCmd (lit "p") [] []
+    [mkCmd (lit "a-b") [(lit "ab", true); (lit "hid", false)] [ex_arg] [cmd_new (lit "c")] None false false sets0 sets0]
+    None false false sets0 sets0.
+Definition ex_texts : ttree :=
+  mkTt (Some (lit "root")) false [] [mkTt (Some (lit "it's")) false [mkAt (Some (lit "say 'hi'")) false] []].
+
+Definition ex_built : cmd :=
+  Eval vm_compute in match build (set_bin_name ex_tree (lit "p")) with Some b => b | None => ex_tree end.
+Lemma ex_built_eq : build (set_bin_name ex_tree (lit "p")) = Some ex_built.
+Proof. vm_compute. reflexivity. Qed.
+Definition ex_node : cmd := Eval vm_compute in hd ex_tree (c_subs ex_built).
+
+Definition values_arg : arg :=
+  mkArg (lit "o") None (Some (lit "opt")) [] [] ASet None (Some [mkPv (lit "zzz") false]) None false false false.
+Definition values_cmd : cmd := mkCmd (lit "p") [] [values_arg] [] None false false sets0 sets0.
+
+(** the hypotheses of the two coverage theorems are satisfiable: a built two-level tree, a path through a
+    visible alias, an option with a short, a visible and a hidden short alias and a long, a subcommand *)
+Example covers_hyps_example :
+  exists c bin b ws ns n a s0 s l0 sc w,
+    build (set_bin_name c bin) = Some b /\ c_bin b = Some bin /\ bin <> [] /\ bins_built b /\
+    reach b ws ns n /\ ws <> [] /\
+    In a (c_args n) /\ a_is_positional a = false /\ a_short a = Some s0 /\ In (s, true) (a_short_aliases a) /\
+    a_long a = Some l0 /\ In sc (c_subs n) /\ In w (get_name_and_visible_aliases sc).
+Proof.
+  exists ex_tree, (lit "p"), ex_built, [lit "ab"], [lit "a-b"], ex_node, ex_arg, (lit "s"), (lit "t"), (lit "long").
+  eexists. exists (lit "c").
+  split; [exact ex_built_eq|].
+  split; [reflexivity|]. split; [discriminate|].
+  split; [exact (build_bins_built _ _ ex_built_eq)|].
+  split; [apply (reach_cons ex_built ex_node (lit "ab") [] [] ex_node);
+          [left; reflexivity|right; left; reflexivity|apply reach_nil]|].
+  split; [discriminate|].
+  split; [left; reflexivity|]. split; [reflexivity|]. split; [reflexivity|].
+  split; [left; reflexivity|]. split; [reflexivity|].
+  split; [left; reflexivity|left; reflexivity].
 Qed.
